@@ -20,6 +20,7 @@ import (
 	"fmt"
 	"io"
 	"runtime"
+	"strings"
 	"sync"
 	"time"
 
@@ -392,6 +393,19 @@ func init() {
 		}
 		inputs = append(inputs, ioInvalid...)
 		inputs = append(inputs, ioTruncated(c.Rng.Fork(), c.N(12, 60))...)
+		// the same documents through a media type with parameters: `;inline=1` switches the svg and css minifiers to their inline
+		// mode (the mode an HTML host asks for), which has its own exits
+		{
+			n := 0
+			for _, in := range append([]ioInput(nil), inputs...) {
+				if (in.pkg == "svg" || in.pkg == "css") && !strings.Contains(in.mt, ";") && len(in.data) <= 4096 {
+					inputs = append(inputs, ioInput{in.mt + ";inline=1", in.pkg, in.name + " (inline=1)", in.data})
+					if n++; n >= c.N(80, 400) {
+						break
+					}
+				}
+			}
+		}
 		if c.Replay != "" {
 			if in, ok := ioReplayInput(c.Replay); ok {
 				inputs = append([]ioInput{in}, inputs...)
